@@ -30,6 +30,9 @@ var (
 	Objects    = map[uint32]string{}
 	Attributes = map[string]string{}
 	Versions   = map[string][2]int{} // "Struct.Field" -> first version
+	// EnumScope: tags whose values are taken from another tag's enumeration (KMIP: "Mask Generator
+	// Hashing Algorithm" is an enumeration of type Hashing Algorithm).
+	EnumScope = map[int]int{}
 )
 
 func load(name string, v any) {
@@ -91,6 +94,11 @@ func init() {
 	for k, v := range objs {
 		Objects[hex32(k)] = v
 	}
+	var scopes map[string]string
+	load("enum_scopes.json", &scopes)
+	for a, b := range scopes {
+		EnumScope[Tags[a]] = Tags[b]
+	}
 	load("attributes.json", &Attributes)
 	var vers map[string]string
 	load("versions.json", &vers)
@@ -112,4 +120,32 @@ func FirstVersion(structName, field string) (int, int) {
 // VersionAtLeast reports maj.min >= a.b
 func VersionAtLeast(maj, min, a, b int) bool {
 	return maj > a || maj == a && min >= b
+}
+
+// MaskFlag resolves a flag name of the mask registered under tag.
+func MaskFlag(tag int, name string) (int32, bool) {
+	for i, f := range Masks[tag] {
+		if f == name && f != "" {
+			return int32(1) << uint(i), true
+		}
+	}
+	return 0, false
+}
+
+// EnumValue resolves an enumeration name in the scope of the element tag.
+func EnumValue(tag int, name string) (uint32, bool) {
+	if s, ok := EnumScope[tag]; ok {
+		tag = s
+	}
+	v, ok := EnumByName[tag][name]
+	return v, ok
+}
+
+// EnumNameOf returns the registered name of a value in the scope of the element tag.
+func EnumNameOf(tag int, v uint32) (string, bool) {
+	if s, ok := EnumScope[tag]; ok {
+		tag = s
+	}
+	n, ok := Enums[tag][v]
+	return n, ok
 }
